@@ -33,6 +33,24 @@ def vt_sig(v):
     return to_text(v)
 
 
+def reg_type_via_hex_reg(idx, toks, is_new=False, is_explicit=False):
+    """sign and width the extension gives a register built from these tokens (through hex_reg, whatever helpers it uses)"""
+    fh = idx.func("HexagonTransformerExtension.hex_reg")
+
+    def once(i):
+        ext = AObj("HexagonTransformerExtension", {"transformer": AObj("RZILTransformer", {"il_ops_holder": Opaque("holder")}, label="tr", opaque=True)}, label="ext")
+        return i.call_function(fh, [toks, is_new, is_explicit], self_obj=ext)
+    res = set()
+    for o in Interp(idx).explore(once):
+        if o.kind == "raise":
+            res.add("RAISE")
+        else:
+            v = o.value
+            vt = v.fields.get("value_type") if isinstance(v, AObj) else None
+            res.add(vt_sig(vt) if vt is not None else "?")
+    return fh, res
+
+
 @rule("R07.1", "C07", "register letter x access class -> architectural width (pairs doubled), signed", min_instances=40)
 def r07_1(ctx):
     idx = get_index(ctx.env)
@@ -41,15 +59,15 @@ def r07_1(ctx):
 
     letters = char_class(gm.terminals["REG_TYPE"]["value"])
     ctx.need(letters, "REG_TYPE letters not recognised")
-    fi = idx.func("get_value_type_from_reg_type")
     for L in sorted(letters):
         for acc in ACCESS:
-            outs = Interp(idx).explore(lambda i, L=L, acc=acc: i.call_function(fi, [[Tok("REG_TYPE", L), Tok(acc, SAMPLE_LETTER[acc])]]))
+            fi, obs = reg_type_via_hex_reg(idx, [Tok("REG_TYPE", L), Tok(acc, SAMPLE_LETTER[acc])])
             if L not in O.REG_WIDTH:
                 exp = "RAISE"
             else:
                 exp = (True, O.REG_WIDTH[L] * (2 if "PAIR" in acc else 1))
-            obs = {("RAISE" if o.kind == "raise" else vt_sig(o.value)) for o in outs}
+                if L == "Q" and "PAIR" in acc:
+                    exp = "RAISE"  # pairs of vector predicates are rejected when the register node is built (no register class for them)
             ctx.check(f"reg type {L}, {acc}", obs == {exp}, str(exp), str(sorted(map(str, obs))), fn_where(idx, fi))
 
 
@@ -375,9 +393,7 @@ def r07_8(ctx):
                     toks, kw = ev[2][0], ev[3]
                     ok_call = (str(toks[-1]) == name and kw.get("is_new") == has_new and kw.get("is_explicit") is True and str(toks[0]) == name[0])
                     # width the extension will compute from these tokens
-                    f2 = idx.func("get_value_type_from_reg_type")
-                    o2 = Interp(idx).explore(lambda i, toks=toks: i.call_function(f2, [toks]))
-                    width = {("RAISE" if x.kind == "raise" else vt_sig(x.value)) for x in o2}
+                    _, width = reg_type_via_hex_reg(idx, toks, has_new, True)
         ctx.check(f"explicit register {name}{'_NEW' if has_new else ''}: name, class letter and .new flag", ok_call, f"hex_reg([.., '{name}'], is_new={has_new}, is_explicit=True)", "call shape differs" if not ok_call else "ok", fn_where(idx, fi))
         base = O.REG_WIDTH.get(name[0])
         exp = {(True, base * (2 if pair else 1))} if base else {"RAISE"}
@@ -443,8 +459,39 @@ def r07_9(ctx):
                   f"{obs}: the register's access class is W once any assignment to it was seen, and W registers are read as .new", fn_where(idx, fr))
 
 
+    # x++ / x-- on such a register: building the node must not turn the register into a written one before its own read is rendered
+    # (the value of x++ and the operand of INC are reads of the OLD value)
+    fpi = idx.resolve_method("PostfixIncDec", "__init__")
+    ctx.need(fpi is not None, "PostfixIncDec.__init__ not found")
+    ht = {m: EnumV("HybridType", m, v) for m, v in idx.enum_table("HybridType").items()}
+    for name, kw in (("R3", {"is_explicit": True}), ("lc0", {"is_alias": True}), ("Rx", {})):
+        for hname in ("INC", "DEC"):
+            box = {}
+            def once3(i, name=name, kw=kw, hname=hname):
+                o = reg_obj(name, "UNKNOWN" if kw else "RW", idx, **kw)
+                o.fields.setdefault("type", EnumV("PureType", "GLOBAL", idx.enum_table("PureType").get("GLOBAL")))
+                box["o"] = o
+                node = AObj("PostfixIncDec", {}, label="node")
+                i.call_function(fpi, ["op_" + hname, o, o.fields["value_type"], ht[hname]], self_obj=node)
+                return i.call_function(fr, [], self_obj=o)
+            outs = Interp(idx).explore(once3)
+            obs = sorted({normalise(outcome_text(o)) for o in outs})
+            ok = bool(obs) and not any("true" in x for x in obs) and not any(o.kind == "raise" for o in outs)
+            ctx.check(f"{name}{'++' if hname == 'INC' else '--'}: the operand is read as the old value", ok, "READ_REG(..., false) or the variable initialised from it", str(obs)[:140], fn_where(idx, fpi), nontrivial=bool(kw))
+    # who marks a register as written: the assignment that writes it, nobody else (the mark decides whether reads are .new reads)
+    callers = sorted(fi.qual for fi in idx.funcs.values() if ".Tests" not in fi.module and fi.qual != "Register.add_write_property"
+                     and any(isinstance(n, ast.Call) and call_tail(n) == "add_write_property" for n in ast.walk(fi.node)))
+    ctx.check("registers are marked as written by assignments only", callers == ["Assignment.__init__"], "['Assignment.__init__']", str(callers), "rzilcompiler/Transformer/Effects/Assignment.py")
+
+
 @rule("R07.10", "C07", "memory accesses, jumps and returns are lowered alike for every kind of address / data / target operand", min_instances=10)
 def r07_10(ctx):
+    from .c12 import immediate_read_protocol
+
+    immediate_read_protocol(ctx)  # an immediate operand is bound to its IL variable after the first copy
+    from .c03 import r03_3
+
+    r03_3(ctx)  # a store writes the width of the access: the data operand is brought to the access type whatever its own width is
     from .c05 import statement_operand_kind_independence
 
     statement_operand_kind_independence(ctx)
